@@ -335,6 +335,13 @@ where
 
         self.read_block()?;
 
+        // No frame follows `cpos` (e.g., when seeking to the end of the stream): discard the
+        // previously read block instead of rewinding it.
+        if self.position == cpos {
+            self.buffer.block = Block::default();
+            self.buffer.block.set_position(cpos);
+        }
+
         self.buffer.block.data_mut().set_position(usize::from(upos));
 
         Ok(pos)
